@@ -15,12 +15,13 @@ import struct
 import boot  # noqa
 import common
 import coqcases
+import coqmol
 import corpus
 from coqfmt import zraw, b, lst, opt, tup, s as cstr
 
 replay = common.generic_replay
 
-IMPORTS = 'PeriodicTable Stereo Rdkit'
+IMPORTS = 'Graph PeriodicTable Stereo Rdkit RdkitRegistry'
 EXTRA = '''From Gen Require Import Elements RdkitTables.
 Open Scope string_scope.
 Open Scope Z_scope.
@@ -70,6 +71,7 @@ Definition eraser (ea : list Z) (eb : list (Z * Z)) (l : stereo_labels) : stereo
 Definition slab_eqb (x y : stereo_labels) : bool := list_eqb lab_eqb (fst x) (fst y) && list_eqb blab_eqb (snd x) (snd y).
 Definition final_ok ea eb hs th ct nb tags rbonds exp :=
   pyres_eqb slab_eqb (from_stereo_final (eraser ea eb) (isH_of hs) th ct (nb_of nb) tags rbonds) exp.
+Definition reg_ok g exp := list_eqb (pair_eqb Z.eqb (list_eqb Z.eqb)) (stereogenic_tetrahedrons_of g) exp.
 Definition plain_ok a bb exp := Bool.eqb (uses_plain_order a bb) exp.
 Definition ringb_ok sizes exp := Bool.eqb (ring_bond_chiral sizes) exp.
 Definition rbo_ok t exp := pyres_eqb Z.eqb (rdkit_bond_order t) exp.
@@ -393,6 +395,21 @@ def corr_ring_bonds(cs, tag, m):
         ck.case(('ringb', tag, n, mm), nontrivial=obs)
 
 
+def corr_registry(cs, tag, m):
+    """stereogenic_tetrahedrons of the live molecule == the model function on the printed molecule (keys and neighbour order)"""
+    ck = cs.ck
+    try:
+        reg = m.stereogenic_tetrahedrons
+        n_at = len(m)
+    except Exception:
+        return
+    if n_at > 70 or not (reg and any(a.stereo is not None for _, a in m.atoms()) or cs.rng.random() < 0.12):
+        return
+    cs.add_big(f'reg_ok {coqmol.mol_term(m)} {lst(list(reg.items()), lambda kv: tup(zraw(kv[0]), lst(kv[1], zraw)))}', (tag, 'stereogenic_tetrahedrons', len(reg)))
+    ck.count('registry:' + ('empty' if not reg else 'entries'))
+    ck.case(('registry', tag), nontrivial=bool(reg))
+
+
 def corr_chiral_order(cs, tag, m):
     """the entry test of _chiral_morgan on a fresh copy of m: the stereo-blind order object itself is returned exactly when the
     molecule has no labelled atom and no labelled bond"""
@@ -424,6 +441,7 @@ def corr_to(cs, tag, m, keep=True):
     hs = [t[0] for t in snap['atoms'] if t[1] == 1]
     corr_ring_bonds(cs, tag, m)
     corr_chiral_order(cs, tag, m)
+    corr_registry(cs, tag, m)
     tap = TapTo()
     rd = tap.run(m, keep_mapping=keep)
     meta = (tag, 'to', keep)
@@ -523,6 +541,7 @@ def corr_from(cs, tag, rd):
     if m is not None:
         corr_ring_bonds(cs, tag + '|result', m)
         corr_chiral_order(cs, tag + '|result', m)
+        corr_registry(cs, tag + '|result', m)
     spare = 2
     stereo_of = {t[0]: t[9] for t in pre['atoms']}
     for i, (name, nb) in enumerate(rsnap['tags']):
